@@ -7,7 +7,7 @@ use read_fonts::collections::IntSet;
 use serde_json::{json, Value};
 use std::cmp::Ordering;
 use std::collections::hash_map::DefaultHasher;
-use std::collections::{HashMap, HashSet, VecDeque};
+use std::collections::{HashSet, VecDeque};
 use std::hash::{Hash, Hasher};
 use vf_core::{guard, Ctx, Digest, Rng};
 
@@ -275,15 +275,21 @@ fn hash_of<T: Hash>(t: &T) -> u64 {
 /// Local event counters (flushed into the Ctx at the end of a section).
 #[derive(Default)]
 pub struct Tally {
-    pub m: HashMap<&'static str, u64>,
+    pub m: Vec<(&'static str, u64)>,
 }
 impl Tally {
     #[inline]
     pub fn add(&mut self, k: &'static str, n: u64) {
-        *self.m.entry(k).or_insert(0) += n;
+        for e in self.m.iter_mut() {
+            if std::ptr::eq(e.0.as_ptr(), k.as_ptr()) && e.0.len() == k.len() {
+                e.1 += n;
+                return;
+            }
+        }
+        self.m.push((k, n));
     }
     pub fn flush(&mut self, ctx: &mut Ctx, prefix: &str) {
-        let mut keys: Vec<_> = self.m.drain().collect();
+        let mut keys: Vec<_> = self.m.drain(..).collect();
         keys.sort();
         for (k, v) in keys {
             ctx.count(&format!("{}{}", prefix, k), v);
@@ -298,6 +304,7 @@ pub fn check_set<T: Elem>(
     dom: &Dom,
     probes: &[u32],
     lim: &Limits,
+    salt: u64,
     t: &mut Tally,
 ) -> Result<(), Fail> {
     let raw = |x: T| x.raw();
@@ -423,7 +430,7 @@ pub fn check_set<T: Elem>(
     // intersects_range
     let n = probes.len();
     for i in 0..n {
-        for j in [i, (i + 1) % n, (i + 3) % n, (i * 7 + 2) % n] {
+        for j in [(i + (salt as usize % 3)) % n, (i * 7 + 2 + salt as usize) % n] {
             let (lo, hi) = (probes[i], probes[j]);
             t.add("obs:intersects_range", 1);
             let g = s.intersects_range(T::mk(lo)..=T::mk(hi));
@@ -485,11 +492,14 @@ pub fn check_rel<T: Elem>(a: &IntSet<T>, b: &IntSet<T>, ma: &Iv, mb: &Iv, t: &mu
 
 /// Build the same mathematical set afresh in both representations (where the
 /// stored side is small enough) and check Eq / Ord / Hash agreement with `s`.
-pub fn check_canon<T: Elem>(s: &IntSet<T>, m: &Iv, dom: &Dom, lim: &Limits, t: &mut Tally) -> Result<(), Fail> {
+pub fn check_canon<T: Elem>(s: &IntSet<T>, m: &Iv, dom: &Dom, lim: &Limits, variant: u64, t: &mut Tally) -> Result<(), Fail> {
     let mut built: Vec<(&'static str, IntSet<T>)> = vec![];
-    if m.len() <= lim.rebuild_max {
+    let (v0, v1) = (variant & 1 == 0, variant & 2 == 0);
+    if m.len() <= lim.rebuild_max && v0 {
         let c: IntSet<T> = m.iter().map(T::mk).collect();
         built.push(("inclusive_from_iter", c));
+    }
+    if m.len() <= lim.rebuild_max && !v0 {
         let mut c: IntSet<T> = IntSet::empty();
         for (lo, hi) in &m.0 {
             c.insert_range(T::mk(*lo)..=T::mk(*hi));
@@ -502,12 +512,14 @@ pub fn check_canon<T: Elem>(s: &IntSet<T>, m: &Iv, dom: &Dom, lim: &Limits, t: &
         built.push(("inclusive_ranges_with_empty_page", c));
     }
     let comp = dom.u.subtract(m);
-    if comp.len() <= lim.rebuild_max {
+    if comp.len() <= lim.rebuild_max && v1 {
         let mut c: IntSet<T> = IntSet::all();
         for (lo, hi) in &comp.0 {
             c.remove_range(T::mk(*lo)..=T::mk(*hi));
         }
         built.push(("inverted_remove_ranges", c));
+    }
+    if comp.len() <= lim.rebuild_max && !v1 {
         let mut c: IntSet<T> = IntSet::empty();
         c.extend(comp.iter().map(T::mk));
         if let Some(v) = dom.bounds.iter().find(|v| !comp.contains(**v)) {
@@ -564,11 +576,12 @@ pub struct Runner<'c> {
     pub violations: u32,
     pub nt_seen: HashSet<u64>,
     pub nt_cap: usize,
+    pub steps: u64,
 }
 
 impl<'c> Runner<'c> {
     pub fn new(ctx: &'c mut Ctx) -> Self {
-        Runner { ctx, tally: Tally::default(), violations: 0, nt_seen: HashSet::new(), nt_cap: 60_000 }
+        Runner { ctx, tally: Tally::default(), violations: 0, nt_seen: HashSet::new(), nt_cap: 8_000, steps: 0 }
     }
 
     pub fn give_up(&self) -> bool {
@@ -602,13 +615,15 @@ impl<'c> Runner<'c> {
         let exp_ret = apply_model(op, dom, &mut p.ma, &mut p.mb);
         if let (Some(all), Some(na), Some(nb)) = (dom.all.as_ref(), p.na.as_mut(), p.nb.as_mut()) {
             apply_naive(op, all, na, nb);
-            if !models_agree(&p.ma, na, dom) || !models_agree(&p.mb, nb, dom) {
+            if !models_agree(&p.ma, na, dom) || (matches!(op, Op::Swap | Op::CloneFromB) && !models_agree(&p.mb, nb, dom)) {
                 self.ctx.inconclusive(format!("model self-check failed at {} {}", sig_prefix(), op.code()));
                 return StepOutcome { failed: true };
             }
             self.tally.add("model_selfcheck_vs_btreeset", 1);
         }
         let changed = before != p.ma;
+        self.steps += 1;
+        let salt = self.steps;
         let mut tally = std::mem::take(&mut self.tally);
         let (a, b, ma, mb) = (&mut p.a, &mut p.b, &p.ma, &p.mb);
         let res = guard(|| -> Result<(), Fail> {
@@ -616,13 +631,13 @@ impl<'c> Runner<'c> {
             if ret != exp_ret {
                 return fail("return_value", json!({"got": ret, "expected": exp_ret}));
             }
-            check_set(a, ma, dom, probes, lim, &mut tally)?;
+            check_set(a, ma, dom, probes, lim, salt, &mut tally)?;
             if matches!(op, Op::Swap | Op::CloneFromB) {
-                check_set(b, mb, dom, probes, lim, &mut tally)?;
+                check_set(b, mb, dom, probes, lim, salt, &mut tally)?;
             }
             check_rel(a, b, ma, mb, &mut tally)?;
             if canon {
-                check_canon(a, ma, dom, lim, &mut tally)?;
+                check_canon(a, ma, dom, lim, salt, &mut tally)?;
             }
             Ok(())
         });
